@@ -16,6 +16,10 @@ def ob(kind, extra):
 
 
 OBLIGATIONS = [ob("clustalo", "clustalo/app.py:ClustalOmegaApp"), ob("mafft", "mafft/app.py:MafftApp"),
-               ob("muscle3", "muscle/app3.py:MuscleApp"), ob("muscle5", "muscle/app5.py:Muscle5App")]
+               ob("muscle3", "muscle/app3.py:MuscleApp"), ob("muscle5", "muscle/app5.py:Muscle5App"),
+               SX("sx_generic", "sx_c20", "ob_generic", cls="E", quick=300, parts=2,
+                  functions=[A + "application.py:Application.join (polling form) / cancel", A + "msaapp.py:MSAApp.evaluate (header order)"],
+                  stubs=STUBS[:2],
+                  bounds="a non-local Application subclass that finishes after 0..3 polls, joined with timeout None / 0 / 0.0 / 30, with and without a failing evaluate(): JOINED with one evaluate and one clean_up, or cancelled + cleaned up once + TimeoutError; the four MSA wrappers with 11, 12 and 23 input sequences written by the program in 3 orders: rows belong to their inputs, get_alignment_order() is the program's order")]
 EXPLANATION = "C20: life cycle and clean-up of application wrappers against the documented automaton, with a symbolic external program."
 ASSUMPTIONS = []
